@@ -92,10 +92,25 @@ func c09AllIupac(s []byte) bool {
 	return true
 }
 
-func c09Compat(x, y byte) bool {
-	a, _ := c09Set(x)
-	b, _ := c09Set(y)
-	return a&b != 0
+func c09Compat(x, y byte) bool { return c09CompatByte(x, y) }
+
+func c09IsLetter(b byte) bool { return (b >= 'A' && b <= 'Z') || (b >= 'a' && b <= 'z') }
+
+// c09CompatByte is the DOCUMENTED behaviour of _samenuc on all 256 byte values (Props/C09.lean:
+// samenuc_iff_sets_intersect, samenuc_non_letter, samenuc_non_iupac_letter), written independently of the code:
+// IUPAC symbols (either case) match iff their nucleotide sets intersect; a letter that is not an IUPAC code matches
+// nothing, not even itself; a byte that is not a letter matches exactly itself.
+func c09CompatByte(x, y byte) bool {
+	sx, okx := c09Set(x)
+	sy, oky := c09Set(y)
+	switch {
+	case okx && oky:
+		return sx&sy != 0
+	case c09IsLetter(x) || c09IsLetter(y):
+		return false
+	default:
+		return x == y
+	}
 }
 
 // c09Naive: full matrix, lexicographic optimum (highest score, then shortest alignment). A mismatch is one
@@ -488,6 +503,70 @@ func (c09) Gen(rng *rand.Rand, tier string, emit func(string)) {
 			emit(fmt.Sprintf("d1 %s %s", hx(x), hx(y)))
 		}
 	}
+	// ---- sequences over ALL kinds of bytes: IUPAC codes in both cases, letters that are not IUPAC codes, '-', '.',
+	// '*', digits, control and high bytes (what _samenuc maps them to: c09CompatByte); both modes, both kernels; the
+	// naive DP oracle runs with the documented compatibility, symmetry is checked on every case
+	nmix := 200
+	if thorough {
+		nmix = 800
+	}
+	mixAlpha := []byte("acgtACGTrymkswbdhvnRYMKSWBDHVNuUxXeEzZ--..*0159 \x00\x7f\x80\xff@[`{")
+	mixSeq := func(n int) []byte {
+		out := make([]byte, n)
+		for i := range out {
+			switch rng.Intn(4) {
+			case 0:
+				out[i] = "acgt"[rng.Intn(4)]
+			case 1:
+				out[i] = byte(rng.Intn(256))
+			default:
+				out[i] = mixAlpha[rng.Intn(len(mixAlpha))]
+			}
+		}
+		return out
+	}
+	for c := 0; c < nmix; c++ {
+		la := rng.Intn(25)
+		if rng.Intn(10) == 0 {
+			la = 40 + rng.Intn(160)
+		}
+		a := mixSeq(la)
+		var b []byte
+		if rng.Intn(4) == 0 {
+			b = mixSeq(rng.Intn(la + 3))
+		} else {
+			b = append([]byte{}, a...)
+			for k := rng.Intn(4); k > 0; k-- {
+				sym := mixSeq(1)[0]
+				switch rng.Intn(3) {
+				case 0:
+					if len(b) > 0 {
+						b[rng.Intn(len(b))] = sym
+					}
+				case 1:
+					p := rng.Intn(len(b) + 1)
+					b = append(b[:p], append([]byte{sym}, b[p:]...)...)
+				case 2:
+					if len(b) > 0 {
+						p := rng.Intn(len(b))
+						b = append(b[:p], b[p+1:]...)
+					}
+				}
+			}
+			if rng.Intn(3) == 0 { // same sequence in the other case: must align as the original does
+				for i := range b {
+					if c09IsLetter(b[i]) {
+						b[i] ^= 32
+					}
+				}
+			}
+		}
+		e := rng.Intn(8) - 1
+		emit(fmt.Sprintf("lcs %s %s %d %d %s", hx(a), hx(b), e, rng.Intn(2), fills[rng.Intn(len(fills))]))
+		if rng.Intn(3) == 0 {
+			emit(fmt.Sprintf("d1 %s %s", hx(a), hx(b)))
+		}
+	}
 }
 
 type c09Failer func(sig, format string, a ...any)
@@ -559,8 +638,9 @@ func c09CheckLCS(a, b []byte, e int, egf bool, fill string, s, l, end int, fail 
 		fail("lcs.end-range", "%s: returned (%d,%d) with end = %d", pair, s, l, end)
 	}
 	if !c09AllIupac(a) || !c09AllIupac(b) {
-		stat("lcs:no-oracle(non-iupac byte)")
-		return
+		// bytes outside the IUPAC alphabet: the naive DP uses the documented behaviour of _samenuc on all bytes
+		// (c09CompatByte, checked against the real code on all 256 x 256 pairs by the samerow cases)
+		stat("lcs:oracle with non-iupac bytes (documented _samenuc)")
 	}
 	ws, wl := c09Naive(a, b, egf)
 	within := e == -1 || wl-ws <= e
@@ -682,6 +762,22 @@ func (c09) Exec(c string) (string, []Fail) {
 				if okx && oky && (s == 1) != (sx&sy != 0) {
 					fail("samenuc.pair", "symbols %q (set %04b) and %q (set %04b): match = %v", byte(x), sx, byte(y), sy, s == 1)
 				}
+				// all 256 x 256 byte pairs: documented behaviour outside the IUPAC alphabet, and symmetry
+				if !(okx && oky) && (s == 1) != c09CompatByte(byte(x), byte(y)) {
+					fail("samenuc.byte", "bytes %q and %q: match = %v, documented behaviour %v", byte(x), byte(y), s == 1, c09CompatByte(byte(x), byte(y)))
+				}
+				s2, _, _ := obialign.FastLCSEGFScoreByte([]byte{byte(y)}, []byte{byte(x)}, -1, false, nil)
+				if s2 != s {
+					fail("samenuc.asymmetric", "bytes %q and %q: match(x,y) = %d, match(y,x) = %d", byte(x), byte(y), s, s2)
+				}
+				switch {
+				case okx && oky:
+					stat("samenuc:pair of IUPAC symbols")
+				case c09IsLetter(byte(x)) || c09IsLetter(byte(y)):
+					stat("samenuc:pair with a non-IUPAC letter or letter/non-letter (no match)")
+				default:
+					stat("samenuc:pair of non-letters (match iff equal)")
+				}
 			}
 			if _, ok := c09Set(byte(x)); !ok {
 				caseTrivial = x != '-' && x != '.'
@@ -766,10 +862,10 @@ func (c09) Exec(c string) (string, []Fail) {
 			if !ok1 || !ok2 {
 				return "bad-op"
 			}
-			lx := []byte(strings.ToLower(string(x)))
-			ly := []byte(strings.ToLower(string(y)))
 			s1 := obiseq.NewBioSequence("x", append([]byte{}, x...), "")
 			s2 := obiseq.NewBioSequence("y", append([]byte{}, y...), "")
+			// the reference works on the STORED bytes (strings.ToLower would rewrite bytes that are not valid UTF-8)
+			lx, ly := append([]byte{}, s1.Sequence()...), append([]byte{}, s2.Sequence()...)
 			if string(s1.Sequence()) != string(x) || string(s2.Sequence()) != string(y) {
 				// the object stores the lower-cased sequence: that is what D1Or0 sees
 				lx, ly = append([]byte{}, s1.Sequence()...), append([]byte{}, s2.Sequence()...)
